@@ -2,7 +2,7 @@
 """Summary of seeded/*/meta.json per round: caught by the property's own check / only by another check / missed."""
 import json, os, re, collections
 H = os.path.dirname(os.path.dirname(os.path.abspath(__file__)))
-ROUND = {"a": 1, "b": 1, "c": 2, "d": 2, "e": 3, "f": 3, "g": 4, "h": 4, "i": 5, "j": 5}
+ROUND = {"a": 1, "b": 1, "c": 2, "d": 2, "e": 3, "f": 3, "g": 4, "h": 4, "i": 5, "j": 5, "k": 6}
 rows = collections.defaultdict(lambda: collections.Counter())
 missed, cross = [], []
 for n in sorted(os.listdir(os.path.join(H, "seeded"))):
@@ -10,7 +10,7 @@ for n in sorted(os.listdir(os.path.join(H, "seeded"))):
     if not os.path.exists(p):
         continue
     m = json.load(open(p))
-    if re.fullmatch(r"C\d\d[a-j]", n):
+    if re.fullmatch(r"C\d\d[a-k]", n):
         grp = f"round {ROUND[n[-1]]}"
     elif n.startswith("revert-"):
         grp = "reverse patches of the fixes"
